@@ -110,6 +110,27 @@ def grep_forbidden(pid, extra_modules):
     return hits
 
 
+def scan_stdout_writers(allowed):
+    """files under /repo/src (other than main.rs, shell/, debug/) that write to stdout outside `#[cfg(feature = "dump_disassembly")]` blocks"""
+    msgs = []
+    for root, _, files in os.walk(os.path.join(REPO, "src")):
+        for fn in files:
+            if not fn.endswith(".rs"):
+                continue
+            path = os.path.join(root, fn)
+            rel = os.path.relpath(path, REPO)
+            if rel == "src/main.rs" or rel.startswith(("src/shell/", "src/debug/")):
+                continue
+            src = open(path).read()
+            src = re.sub(r'#\[cfg\(feature = "dump_disassembly"\)\]\s*\{.*?\n    \}', "", src, flags=re.S)
+            src = re.sub(r"#\[cfg\(test\)\]\s*mod tests \{.*", "", src, flags=re.S)
+            for i, line in enumerate(src.split("\n")):
+                code = line.split("//")[0]
+                if re.search(r"(?<![e_])print(ln)?!|stdout\(\)", code) and rel not in allowed:
+                    msgs.append("%s writes to stdout: %s" % (rel, code.strip()[:100]))
+    return msgs
+
+
 def audit(pid):
     """#print axioms for every theorem of Props/Cxx.lean; returns (obligations, discharged, detail, problems)"""
     names = theorem_names(pid)
@@ -347,6 +368,9 @@ def main():
     if rc == 0:
         obligations, discharged, detail, problems = audit(pid)
         broken += ["audit: " + p for p in problems]
+    # source scan (C18): every print!/println!/stdout() in /repo/src outside main.rs, shell/ and cfg(dump_disassembly) code
+    if "stdout_writers_allowed" in P:
+        broken += ["source scan: " + m for m in scan_stdout_writers(P["stdout_writers_allowed"])]
     forb = grep_forbidden(pid, P.get("modules", []))
     broken += ["forbidden token: " + h for h in forb]
     if tier == "thorough" and rc == 0 and P.get("leanchecker", True):
